@@ -9,9 +9,6 @@ open Gobptree
 
 variable {K V : Type}
 
-/-- no program contains a Delete -/
-def NoDelete (progs : List (List (COp K V))) : Prop := ∀ p ∈ progs, ∀ op ∈ p, op.isDel = false
-
 structure KCInv (lt : K → K → Bool) (c : Config K V) : Prop where
   cinv  : CInv c
   kinv  : KInv lt c
@@ -28,7 +25,7 @@ theorem init_kcinv (lt : K → K → Bool) (P : Params K) (tree : Tree K V) (pro
     simp only [Config.init, List.mem_map] at hth
     obtain ⟨p, hp, e⟩ := hth
     exact ⟨p, hp, e.symm⟩
-  refine ⟨init_cinv P tree progs ht ho hp hd, ⟨hord, ?_⟩, hkp, ?_⟩
+  refine ⟨init_cinv P tree progs ht ho hp hd (Or.inr hnd), ⟨hord, ?_⟩, hkp, ?_⟩
   · intro th hth
     obtain ⟨p, _, e⟩ := hths th hth
     rw [e]; trivial
